@@ -15,7 +15,9 @@
    header in an encoded/encrypted header and Header._read verifies it when present; testzip()
    calls reset() first and reports a folder-level CrcError with a marker string that is neither
    None nor a member name (commit 065e810; before it, it returned args[2] = None, i.e. "good");
-   the symbolic-link branch of _extract_single still compares no CRC.
+   the symbolic-link branch of _extract_single compares the CRC of the decoded target text
+   (commit c33fe91: [symcheck] = true is the code as it is, [symcheck] = false the code before
+   that commit, kept for the regression example).
    stdlib only; no axioms. *)
 From P7 Require Import Prelude Crc32.
 From Coq Require Import NArith ZArith List Bool Lia ZifyBool.
@@ -169,7 +171,7 @@ Definition crc_bad (stored : option Z) (computed : Z) : bool :=
 
 Section Flow.
   (* does the symbolic-link branch of _extract_single compare the CRC?
-     (false on the unchanged tree) *)
+     true = the code as it is (commit c33fe91); false = the code before it *)
   Variable symcheck : bool.
   (* is_path_valid / utf-8 decoding of a link target *)
   Variable link_ok : bytes -> bool.
@@ -293,6 +295,10 @@ Definition testzip (tzfolder : bool) (dec : Z -> dres) (s : shape) : tzres :=
   | Raised (XCrc None) => if tzfolder then TZFlag else TZ None
   | Raised (XErr e) => TZRaise e
   end.
+
+(* Worker.extract as it is *)
+Definition extract_impl (link_ok : bytes -> bool) (dec : Z -> dres) (skip : bool) (s : shape) : outcome :=
+  worker_extract true link_ok dec skip s.
 
 (* SevenZipFile.testzip as it is *)
 Definition testzip_impl (dec : Z -> dres) (s : shape) : tzres := testzip true dec s.
@@ -979,6 +985,42 @@ Proof.
   apply (burst_crc d d' Hb). lia.
 Qed.
 
+(* ---- the code as it is (symcheck = true): every delivered member is compared ---- *)
+
+Lemma checked_true f : checked true f = true.
+Proof. reflexivity. Qed.
+
+Theorem delivered_implies_checked_impl : forall link_ok dec skip s out f d c,
+  extract_impl link_ok dec skip s = Done out ->
+  In (f, d) out -> f_crc f = Some c -> f_empty f = false ->
+  crc32 d = c.
+Proof.
+  intros link_ok dec skip s out f d c H Hin Hc He.
+  exact (delivered_implies_checked true link_ok dec skip s out f d c H Hin (checked_true f) Hc He).
+Qed.
+
+Corollary delivered_intact_or_collision_impl : forall link_ok dec skip s out f d d',
+  extract_impl link_ok dec skip s = Done out ->
+  In (f, d') out -> f_empty f = false -> f_crc f = Some (crc32 d) ->
+  d' = d \/ crc_collision d d'.
+Proof.
+  intros link_ok dec skip s out f d d' H Hin He Hc.
+  exact (delivered_intact_or_collision true link_ok dec skip s out f d d' H Hin (checked_true f) He Hc).
+Qed.
+
+Theorem copy_burst_detected_impl : forall link_ok dec skip s f pre d d' post chunks,
+  (exists sk l, In (sk, l) (calls skip s) /\ In f l) ->
+  tnone (f_tgt f) = false -> f_empty f = false ->
+  f_crc f = Some (crc32 d) ->
+  burst d d' ->
+  dec (f_id f) = DOk chunks ->
+  concat chunks = sliceZ (zlen pre) (zlen d') (pre ++ d' ++ post) ->
+  forall out, extract_impl link_ok dec skip s <> Done out.
+Proof.
+  intros link_ok dec skip s f pre d d' post chunks Hc Ht He Hcrc Hb Hd Hcopy.
+  exact (copy_burst_detected true link_ok dec skip s f pre d d' post chunks Hc Ht He (checked_true f) Hcrc Hb Hd Hcopy).
+Qed.
+
 (* ------------------------------------------------------------------ *)
 (** * Proofs: testzip()                                                  *)
 (* ------------------------------------------------------------------ *)
@@ -1395,6 +1437,29 @@ Section ReaderProofs.
   Qed.
 End ReaderProofs.
 
+(* the chain for the code as it is: no side condition on how a member is delivered *)
+Theorem accept_implies_intact_or_collision_impl :
+  forall (link_ok : bytes -> bool) (hmeta : Type) (empty_meta : hmeta)
+         (parse_plain : bytes -> res hmeta) (enc_crc : bytes -> option Z)
+         (enc_decode : bytes -> bytes -> res bytes) (shape_of : hmeta -> shape)
+         (decoder : hmeta -> bytes -> Z -> dres) (img img' : bytes) (out out' : list (mfile * bytes)),
+    read_archive true link_ok hmeta empty_meta parse_plain enc_crc enc_decode shape_of decoder img = Done out ->
+    read_archive true link_ok hmeta empty_meta parse_plain enc_crc enc_decode shape_of decoder img' = Done out' ->
+    header_protected enc_crc (next_header img) = true ->
+    (forall f d', In (f, d') out' -> f_crc f <> None -> In (f, d') out)
+    \/ (start_crc img <> start_crc img' /\ start_fields img <> start_fields img')
+    \/ crc_collision (start_fields img) (start_fields img')
+    \/ crc_collision (next_header img) (next_header img')
+    \/ (exists p p', plain_header enc_crc enc_decode img = Some p /\
+                     plain_header enc_crc enc_decode img' = Some p' /\ crc_collision p p')
+    \/ (exists f d d', In (f, d) out /\ In (f, d') out' /\ crc_collision d d').
+Proof.
+  intros link_ok hmeta empty_meta parse_plain enc_crc enc_decode shape_of decoder img img' out out' H H' Hp.
+  destruct (accept_implies_intact_or_collision true link_ok hmeta empty_meta parse_plain enc_crc enc_decode
+              shape_of decoder img img' out out' H H' Hp) as [Hall | Hrest]; [| right; exact Hrest].
+  left. intros f d' Hin Hc. exact (Hall f d' Hin (checked_true f) Hc).
+Qed.
+
 (* ------------------------------------------------------------------ *)
 (** * A concrete instance, refutation witnesses, non-vacuity examples    *)
 (* ------------------------------------------------------------------ *)
@@ -1523,8 +1588,9 @@ Example encoded_header_crc_catches :
   nth 39%nat img 0 = 97 /\ Toy.read true img' = Raised (XErr EBad7z).
 Proof. vm_compute. split; reflexivity. Qed.
 
-(* REFUTED for symbolic links extracted to a path (symcheck = false, the unchanged tree): the link
-   is created from bytes whose CRC differs from the stored one, and the call succeeds *)
+(* Regression example: for the code before commit c33fe91 (symcheck = false) a symbolic link
+   extracted to a path was created from bytes whose CRC differs from the stored one, and the
+   call succeeded *)
 Theorem delivered_implies_checked_refuted_symlink :
   exists dec s out f d c,
     worker_extract false (fun _ => true) dec true s = Done out /\
@@ -1538,10 +1604,10 @@ Proof.
   split; [reflexivity |]. split; [vm_compute; discriminate | vm_compute; reflexivity].
 Qed.
 
-(* with the comparison in place (symcheck = true) the same input is rejected *)
+(* the code as it is rejects the same input *)
 Example symlink_checked_when_repaired :
   let f := mkFile 7 [108] false (Some (crc32 [116; 97])) true TPath in
-  worker_extract true (fun _ => true) (fun _ => DOk [[116; 98]]) true (OneFolder [f]) = Raised (XCrc (Some 7)).
+  extract_impl (fun _ => true) (fun _ => DOk [[116; 98]]) true (OneFolder [f]) = Raised (XCrc (Some 7)).
 Proof. vm_compute. reflexivity. Qed.
 
 (* Regression example: for the code before commit 065e810 ([tzfolder] = false) testzip() = None did
@@ -1602,6 +1668,8 @@ Print Assumptions calculate_crc32_eq.
 Print Assumptions burst_detected_start_header.
 Print Assumptions burst_detected_header.
 Print Assumptions delivered_implies_checked.
+Print Assumptions delivered_implies_checked_impl.
+Print Assumptions accept_implies_intact_or_collision_impl.
 Print Assumptions copy_burst_detected.
 Print Assumptions accept_implies_intact_or_collision.
 Print Assumptions version_alteration_harmless.
